@@ -7,4 +7,5 @@ Print Assumptions CodecEquiv.tr_WriteHead_equiv.
 Print Assumptions CodecEquiv.tr_WriteInt64_equiv.
 Print Assumptions ParseEquiv.tr_Parse_build_equiv.
 Print Assumptions BSWLEquiv.tr_BSWL_range_equiv.
+Print Assumptions BSWLEquiv.tr_BSWL_scale_equiv.
 Print Assumptions CheckActiveEquiv.tr_checkActive_equiv.
